@@ -277,11 +277,29 @@ func parseModel(o *Obligation, s string) cexModel {
 	return m
 }
 
-func (p *Program) findCex(o *Obligation, dir string, timeout time.Duration) (cexModel, string) {
+func (p *Program) findCexFrom(o *Obligation, dir string, timeout time.Duration, attempt int) (cexModel, string) {
 	if len(o.Wit) == 0 {
 		return nil, "no witnesses declared"
 	}
-	// 1. candidate model from cvc5 on the proof-mode query
+	if attempt == 1 {
+		q := p.cexQuery(o)
+		if q == "" {
+			return nil, "no definitional query"
+		}
+		file := filepath.Join(dir, "cex_"+sanitize(o.Name)+".smt2")
+		os.WriteFile(file, []byte(q), 0o644)
+		for _, solver := range []string{"z3-new", "z3"} {
+			out, _ := exec.Command(solver, "-smt2", fmt.Sprintf("-T:%d", int(timeout.Seconds())), file).CombinedOutput()
+			s := string(out)
+			if !strings.HasPrefix(strings.TrimSpace(s), "sat") {
+				continue
+			}
+			if m := parseModel(o, s); m != nil {
+				return m, solver + " model of the definitional query"
+			}
+		}
+		return nil, "no model: z3 found no model of the definitional query"
+	}
 	file := filepath.Join(dir, "cand_"+sanitize(o.Name)+".smt2")
 	os.WriteFile(file, []byte(p.candidateQuery(o)), 0o644)
 	out, _ := exec.Command("cvc5", "--lang=smt2", "--produce-models", "--strings-exp", fmt.Sprintf("--tlimit=%d", timeout.Milliseconds()), file).CombinedOutput()
@@ -291,24 +309,7 @@ func (p *Program) findCex(o *Obligation, dir string, timeout time.Duration) (cex
 			return m, "cvc5 candidate model (" + first + ")"
 		}
 	}
-	// 2. definitional query on z3
-	q := p.cexQuery(o)
-	if q == "" {
-		return nil, "no definitional query"
-	}
-	file = filepath.Join(dir, "cex_"+sanitize(o.Name)+".smt2")
-	os.WriteFile(file, []byte(q), 0o644)
-	for _, solver := range []string{"z3-new", "z3"} {
-		out, _ := exec.Command(solver, "-smt2", fmt.Sprintf("-T:%d", int(timeout.Seconds())), file).CombinedOutput()
-		s := string(out)
-		if !strings.HasPrefix(strings.TrimSpace(s), "sat") {
-			continue
-		}
-		if m := parseModel(o, s); m != nil {
-			return m, solver + " model of the definitional query"
-		}
-	}
-	return nil, "no model: cvc5 gave no candidate and z3 found no model of the definitional query"
+	return nil, "cvc5 gave no candidate model"
 }
 
 // ---------------------------------------------------------------- harness generation
@@ -450,7 +451,15 @@ func planParam(name string, t types.Type, m cexModel, pkg *types.Package, import
 	case "*github.com/TarsCloud/TarsGo/tars/protocol/codec.Reader":
 		q := ""
 		if pkg.Path() != "github.com/TarsCloud/TarsGo/tars/protocol/codec" {
-			return paramPlan{}, false
+			// foreign package: only the exported API is available; the cursor is not observable
+			imports["github.com/TarsCloud/TarsGo/tars/protocol/codec"] = true
+			v := "v_" + name
+			src := goBytesLit(m["src"], "byte")
+			return paramPlan{
+				setup: []string{fmt.Sprintf("%s := codec.NewReader(%s)", v, src), fmt.Sprintf("%s.Skip(int(%s))", v, goIntLit(m["i"]))},
+				arg:   v,
+				obs:   []obsSpec{{"$.buf.src", "govcBytes(" + src + ")", "seq"}},
+			}, true
 		}
 		v := "v_" + name
 		src := goBytesLit(m["src"], "byte")
@@ -492,6 +501,11 @@ func planParam(name string, t types.Type, m cexModel, pkg *types.Package, import
 		return paramPlan{arg: lit}, true
 	}
 	if pt, ok := t.Underlying().(*types.Pointer); ok {
+		if _, isStruct := pt.Elem().Underlying().(*types.Struct); isStruct {
+			// a zero-valued struct as the target
+			v := "v_" + name
+			return paramPlan{setup: []string{fmt.Sprintf("%s := &%s{}", v, typeStr(pt.Elem(), pkg))}, arg: v}, true
+		}
 		if lit, ok := scalarFromWitness(pt.Elem(), name+"0", m, pkg, imports); ok {
 			v := "v_" + name
 			o, ok2 := obsOfScalar(pt.Elem(), "*$", v, imports)
@@ -823,19 +837,39 @@ func (p *Program) replayObligation(o *Obligation, dir string) (cexModel, *replay
 	if fn == nil || con == nil {
 		return nil, &replayResult{Why: "no function to replay (spec lemma)"}
 	}
-	m, how := p.findCex(o, dir, 10*time.Second)
+	var m cexModel
+	var rr replayResult
+	var lastWhy string
+	for attempt := 0; attempt < 2; attempt++ {
+		var how string
+		m, how = p.findCexFrom(o, dir, 10*time.Second, attempt)
+		if m == nil {
+			lastWhy = how
+			continue
+		}
+		src, err := buildHarness(fn, m)
+		if err != nil {
+			return m, &replayResult{Why: err.Error()}
+		}
+		rr = runHarness(fn, p, src)
+		if !rr.Ran {
+			return m, &rr
+		}
+		p.judge(fn, con, o, m, &rr, dir)
+		if rr.Confirmed {
+			return m, &rr
+		}
+	}
 	if m == nil {
-		return nil, &replayResult{Why: how}
+		return nil, &replayResult{Why: lastWhy}
 	}
-	_ = how
-	src, err := buildHarness(fn, m)
-	if err != nil {
-		return m, &replayResult{Why: err.Error()}
-	}
-	rr := runHarness(fn, p, src)
-	if !rr.Ran {
-		return m, &rr
-	}
+	return m, &rr
+}
+
+// judge decides whether the observed run confirms the violation.
+func (p *Program) judge(fn *ssa.Function, con *Contract, o *Obligation, m cexModel, prr *replayResult, dir string) {
+	rr := *prr
+	defer func() { *prr = rr }()
 	switch o.Kind {
 	case "nil", "bounds", "slicebounds", "makelen", "divzero", "typeassert", "panic", "nilmap":
 		if rr.Panicked || rr.Crashed {
@@ -863,5 +897,4 @@ func (p *Program) replayObligation(o *Obligation, dir string) (cexModel, *replay
 		}
 		p.evalClause(fn, con, o, m, &rr, dir)
 	}
-	return m, &rr
 }
